@@ -449,7 +449,7 @@ theorem inline_total (G : Graph P) (entrySites : List (Site P)) :
     (by intro stack p h; omega)
     (by intro n stack p i _ _; simp)
     (by
-      intro n stack p sites ret hc hidx hget s _ q _
+      intro n stack p sites ret hc hidx hget s _ _ q _
       have := free_lt G stack p _ (indexOf?_none_not_mem p stack hidx) hget
       omega)
   have hv := visit_errs (fun e => e ≠ .fuel) (inlineRequire G (G.length + 1) []) true entrySites
@@ -491,8 +491,8 @@ theorem inline_cyclic_sound (G : Graph P) (entrySites : List (Site P)) (ps : Lis
       · exact List.mem_append_left _ (List.mem_of_mem_drop hx)
       · exact List.mem_append_right _ hx)
     (by
-      intro n stack p sites ret hc _ hget s hs q hq
-      have he : Edge G p q := ⟨sites, ret, hget, s, hs, hq⟩
+      intro n stack p sites ret hc _ hget s hs hsh q hq
+      have he : Edge G p q := ⟨sites, ret, hget, s, hs, hsh, hq⟩
       refine ⟨isPath_snoc G stack p q hc.1 he, ?_⟩
       intro x hx
       rcases List.mem_append.mp hx with hx | hx
@@ -520,7 +520,8 @@ data files), and every require call the walk acts on resolves to a file or is ex
 structure WellFormed (G : Graph P) (entrySites : List (Site P)) : Prop where
   entry : ∀ s ∈ entrySites, s.shadowed = false → ∀ q, s.target ≠ .notFound q
   node : ∀ p, Reach G entrySites p →
-    G.get p = some .data ∨ ∃ sites, G.get p = some (.lua sites .one) ∧ ∀ s ∈ sites, ∀ q, s.target ≠ .notFound q
+    G.get p = some .data ∨
+      ∃ sites, G.get p = some (.lua sites .one) ∧ ∀ s ∈ sites, s.shadowed = false → ∀ q, s.target ≠ .notFound q
 
 /-- no cycle of requires among the files reachable from the entry -/
 def Acyclic (G : Graph P) (entrySites : List (Site P)) : Prop :=
@@ -548,15 +549,15 @@ theorem inline_wellformed_errors_cyclic (G : Graph P) (entrySites : List (Site P
         · intro h; rw [hl] at h; cases h
         · intro sites' h; rw [hl] at h; cases h
         · intro sites' h; rw [hl] at h; cases h
-        · intro sites' ret h s hs' q hq
+        · intro sites' ret h s hs' hsh q hq
           rw [hl] at h; cases h
-          exact absurd hq (hs s hs' q))
+          exact absurd hq (hs s hs' hsh q))
     (by intro stack p h; omega)
     (by intro n stack p i _ _; exact ⟨_, rfl⟩)
     (by
-      intro n stack p sites ret hc hidx hget s hs q hq
+      intro n stack p sites ret hc hidx hget s hs hsh q hq
       have := free_lt G stack p _ (indexOf?_none_not_mem p stack hidx) hget
-      exact ⟨Reach.step hc.1 ⟨sites, ret, hget, s, hs, hq⟩, by omega⟩)
+      exact ⟨Reach.step hc.1 ⟨sites, ret, hget, s, hs, hsh, hq⟩, by omega⟩)
   have hv := visit_errs (fun e => ∃ ps, e = .cyclic ps) (inlineRequire G (G.length + 1) []) true entrySites
     (by
       intro s hs q hq hsh
@@ -709,7 +710,7 @@ def exCyc : Graph Nat :=
 example : Err.cyclic [2, 3, 2] ∈ (inlineAll exCyc [⟨false, .file 1⟩]).errors := by decide
 example : Err.fuel ∉ (inlineAll exCyc [⟨false, .file 1⟩]).errors := inline_total _ _
 
-/-! ## F8: required modules are walked without scopes -/
+/-! ## F8 (fixed): every file is walked with scopes -/
 
 /-- FULL statement: a call site at which a local `require` is in scope is never rewritten —
 neither in the entry nor in a required module. -/
@@ -720,18 +721,6 @@ def shadowed_never_rewritten_full : Prop :=
     (∀ (p : Nat) (ds : List (Option Nat)) (sites : List (Site Nat)) (ret : RetShape),
       (p, ds) ∈ (inlineAll G entrySites).defs → G.get p = some (.lua sites ret) →
       ∀ (k : Nat) (s : Site Nat), sites[k]? = some s → s.shadowed = true → ds[k]? = some none)
-
-/-- witness of F8: module 1 shadows `require` and then calls it on a path resolving to file 2 -/
-def exF8 : Graph Nat := [(1, .lua [⟨true, .file 2⟩] .one), (2, .data)]
-
-/-- The full statement is FALSE of the code (finding F8): in the witness the shadowed call of
-module 1 is rewritten to the accessor of definition 0 (file 2). -/
-theorem shadowed_never_rewritten_full_false : ¬ shadowed_never_rewritten_full := by
-  intro h
-  have h2 := (h exF8 [⟨false, .file 1⟩]).2 1 [some 0] [⟨true, .file 2⟩] .one (by decide) rfl 0
-    ⟨true, .file 2⟩ (by decide) rfl
-  revert h2
-  decide
 
 theorem visit_entry_shadowed {P : Type} [DecidableEq P] (inl : P → St P → Except (Err P) Nat × St P)
     (sites : List (Site P)) (st : St P) (k : Nat) (s : Site P)
@@ -749,36 +738,42 @@ theorem visit_entry_shadowed {P : Type} [DecidableEq P] (inl : P → St P → Ex
       simp only [visit, List.getElem?_cons_succ]
       exact ih _ k hk
 
-/-- PARTIAL (what holds): under `H5 G` (no required module has a shadowed call site — the decidable
-hypothesis the driver exposes as `c05.h5`) no shadowed call site is ever rewritten; the entry,
-walked with `ScopeVisitor`, is always treated correctly. Missing for the full statement: the Rust
-walks required modules with `DefaultVisitor` (F8). -/
-theorem shadowed_never_rewritten_partial (G : Graph Nat) (entrySites : List (Site Nat)) (h5 : H5 G = true) :
+/-- Since the fix of finding F8 (required modules are walked with `ScopeVisitor`, `/repo` commit
+recorded in known_findings.json) the full statement HOLDS of the code, on every graph: no hypothesis
+`H5` any more. -/
+theorem shadowed_never_rewritten (G : Graph Nat) (entrySites : List (Site Nat)) :
     (∀ (k : Nat) (s : Site Nat), entrySites[k]? = some s → s.shadowed = true →
       (inlineAll G entrySites).entry[k]? = some none) ∧
     (∀ (p : Nat) (ds : List (Option Nat)) (sites : List (Site Nat)) (ret : RetShape),
       (p, ds) ∈ (inlineAll G entrySites).defs → G.get p = some (.lua sites ret) →
       ∀ (k : Nat) (s : Site Nat), sites[k]? = some s → s.shadowed = true → ds[k]? = some none) := by
   refine ⟨fun k s hk hs => visit_entry_shadowed _ entrySites St.empty k s hk hs, ?_⟩
-  intro p ds sites ret _ hget k s hk hs
-  exfalso
-  have hmem : ∀ (G : Graph Nat), G.get p = some (.lua sites ret) → (p, Module.lua sites ret) ∈ G := by
-    intro G
-    induction G with
-    | nil => intro h; simp [Graph.get] at h
-    | cons e G ih =>
-      obtain ⟨k', m⟩ := e
-      intro h
-      simp only [Graph.get] at h
-      split at h
-      · rename_i hk'; simp at h; subst h; subst hk'; exact List.mem_cons_self
-      · exact List.mem_cons_of_mem _ (ih h)
-  have hall := List.all_eq_true.mp h5 _ (hmem G hget)
-  simp only at hall
-  have := List.all_eq_true.mp hall s (List.mem_of_getElem? hk)
-  simp [hs] at this
+  let Q : Nat → List (Option Nat) → Prop := fun p ds =>
+    ∀ sites ret, G.get p = some (.lua sites ret) →
+      ∀ (k : Nat) (s : Site Nat), sites[k]? = some s → s.shadowed = true → ds[k]? = some none
+  have key := inlineRequire_defs G Q
+    (by intro p hp sites ret h; rw [hp] at h; cases h)
+    (by
+      intro p sites ret inl st hget sites' ret' h k s hk hs
+      rw [hget] at h; cases h
+      exact visit_entry_shadowed inl sites st k s hk hs)
+    (G.length + 1) []
+  have hv := visit_defs Q (inlineRequire G (G.length + 1) []) true entrySites key St.empty
+    (by intro pd hpd; simp [St.empty] at hpd)
+  intro p ds sites ret hmem hget k s hk hs
+  exact hv (p, ds) hmem sites ret hget k s hk hs
 
--- non-vacuity: `exDag` satisfies H5 and its entry has a shadowed site
-example : H5 exDag = true ∧ exEntry[2]? = some ⟨true, .file 3⟩ := by decide
+theorem shadowed_never_rewritten_full_holds : shadowed_never_rewritten_full :=
+  fun G entrySites => shadowed_never_rewritten G entrySites
+
+/-- the former witness of F8: module 1 shadows `require` and then calls it on a path resolving to file 2 -/
+def exF8 : Graph Nat := [(1, .lua [⟨true, .file 2⟩] .one), (2, .data)]
+
+-- regression: on the old witness the fixed model leaves the shadowed call alone and does not bundle file 2
+example : (inlineAll exF8 [⟨false, .file 1⟩]).defs = [(1, [none])] ∧
+    (inlineAll exF8 [⟨false, .file 1⟩]).errors = [] := by decide
+
+-- non-vacuity: a graph whose entry AND a required module have shadowed call sites
+example : exEntry[2]? = some ⟨true, .file 3⟩ ∧ exF8.get 1 = some (.lua [⟨true, .file 2⟩] .one) := ⟨by decide, rfl⟩
 
 end DarkluaModel.C05
